@@ -972,6 +972,92 @@ theorem simple_processor_exports_emitted_values (c : Cfg) (pre : List Op) (t : T
   intro p hk
   simp only [Proc.emit, hk, hsee]
 
+/-! ### what exactly is handed over, and exporter logs only grow -/
+
+theorem cfg_exec (ops : List Op) : ∀ s : State, (exec s ops).cfg = s.cfg := by
+  induction ops with
+  | nil => intro s; rfl
+  | cons op t ih => intro s; show (exec (step s op) t).cfg = _; rw [ih, cfg_step]
+
+/-- the record `EmitLogRecord(args…)` hands to the processors on thread `t`: the fresh record (correlated with the active
+    span), the argument pack applied left to right, then the provider's resource and the logger's scope -/
+def emittedRecord (s : State) (t : ThreadId) (args : List Arg) : Record :=
+  { (freshRecord s t).setAll args with resource := some s.cfg.resource, scope := some s.cfg.scope }
+
+/-- **emit_hands_over.**  In every reachable state `EmitLogRecord(args…)` through the enabled logger hands exactly
+    `emittedRecord` to every processor (one `OnEmit` each), and that record carries the resource and the instrumentation
+    scope of the configuration — for any arguments (no hypothesis on the caller's cells). -/
+theorem emit_hands_over (c : Cfg) (pre : List Op) (t : ThreadId) (args : List Arg) :
+    (step (exec (init c) pre) (.emit t true .fresh args)).procs
+      = (exec (init c) pre).procs.map
+          (·.emit (args.foldl Arg.alloc (exec (init c) pre).heap) (emittedRecord (exec (init c) pre) t args)) ∧
+    (emittedRecord (exec (init c) pre) t args).resource = some c.resource ∧
+    (emittedRecord (exec (init c) pre) t args).scope = some c.scope := by
+  obtain ⟨hc, hl, _⟩ := fanout_identical_children c pre
+  have hcfg : (exec (init c) pre).cfg = c := by rw [cfg_exec]; rfl
+  refine ⟨?_, by simp [emittedRecord, hcfg], by simp [emittedRecord, hcfg]⟩
+  simp only [step, if_true, createLive_eq, hc]
+  exact emitSlot_live _ args _ c.procs.length hl
+
+theorem exports_prefix_emit (p : Proc) (hp : Heap) (r : Record) : p.exports <+: (p.emit hp r).exports := by
+  unfold Proc.emit
+  cases p.kind
+  · exact List.prefix_append _ _
+  · exact List.prefix_refl _
+
+theorem exports_prefix_flush (p : Proc) (hp : Heap) : p.exports <+: (p.flush hp).exports := by
+  unfold Proc.flush
+  split
+  · exact List.prefix_append _ _
+  · exact List.prefix_refl _
+
+/-- one step never changes or removes an entry of any exporter's log (processor `i` stays processor `i`) -/
+theorem exports_prefix_step (n : Nat) (s : State) (op : Op) (hu : Uniform n s) (i : Nat) (p p' : Proc)
+    (h : s.procs[i]? = some p) (h' : (step s op).procs[i]? = some p') : p.exports <+: p'.exports := by
+  obtain ⟨_, he, hne⟩ := step_uniform n s op hu
+  by_cases heff : effective s op = true
+  · obtain ⟨r, hp, hprocs⟩ := he heff
+    rw [hprocs, List.getElem?_map, h] at h'
+    simp only [Option.map_some, Option.some.injEq] at h'
+    rw [← h']
+    exact exports_prefix_emit p hp r
+  · have heff' : effective s op = false := by simpa using heff
+    by_cases hf : op = .flush
+    · subst hf
+      simp only [step, List.getElem?_map, h, Option.map_some, Option.some.injEq] at h'
+      rw [← h']
+      exact exports_prefix_flush p _
+    · rw [hne heff' hf, h] at h'
+      rw [Option.some.inj h']
+      exact List.prefix_refl _
+
+/-- **exporter_logs_only_grow.**  Through any further operations — of any thread, on any record, any caller-memory
+    operation, any flush — what an exporter has already been given stays exactly as it was (a prefix of its later log):
+    in particular what a simple processor exported inside `Emit` cannot be affected by what the caller does afterwards. -/
+theorem exporter_logs_only_grow (c : Cfg) (pre post : List Op) (i : Nat) (p p' : Proc)
+    (h : (exec (init c) pre).procs[i]? = some p) (h' : (exec (init c) (pre ++ post)).procs[i]? = some p') :
+    p.exports <+: p'.exports := by
+  have key : ∀ (post : List Op) (s : State) (p p' : Proc), Uniform c.procs.length s → s.procs[i]? = some p →
+      (exec s post).procs[i]? = some p' → p.exports <+: p'.exports := by
+    intro post
+    induction post with
+    | nil =>
+      intro s p p' _ h h'
+      have : some p = some p' := by rw [← h, ← h']; rfl
+      rw [Option.some.inj this]
+      exact List.prefix_refl _
+    | cons op t ih =>
+      intro s p p' hu h h'
+      have hu' := (step_uniform _ s op hu).1
+      have hlen : i < (step s op).procs.length := by
+        rw [hu'.2.1, ← hu.2.1]
+        exact (List.getElem?_eq_some_iff.mp h).1
+      obtain ⟨q, hq⟩ : ∃ q, (step s op).procs[i]? = some q := ⟨_, List.getElem?_eq_getElem hlen⟩
+      exact List.IsPrefix.trans (exports_prefix_step _ s op hu i p q h hq) (ih (step s op) q p' hu' hq h')
+  have hsplit : exec (init c) (pre ++ post) = exec (exec (init c) pre) post := by simp [exec, List.foldl_append]
+  rw [hsplit] at h'
+  exact key post _ p p' (fanout_identical_children c pre) h h'
+
 /-! ### the witnesses: deferred export reads the caller's later bytes -/
 
 def bodyArgs : Op → List Value
